@@ -4,7 +4,7 @@ import vlib
 from vlib import Result, log
 from arena import Arena
 
-THEOREMS = ["C14_base_dispatch", "C14_base_unmapped", "C14_base_untagged", "C14_members_reachable", "C14_union_dispatch",
+THEOREMS = ["C14_base_dispatch", "C14_base_unmapped", "C14_base_untagged", "C14_members_reachable", "C14_union_dispatch", "C14_const_mapping",
             "C14_unmapped_member_dropped_refuted", "C14_nonvacuous"]
 TARGETS = ["Props/C14.v", "Extract/C14.v"]
 
@@ -77,7 +77,17 @@ def configs():
                     mapping = {}
                 schemas["Uni"] = {kw: [R(c) for c in members], "discriminator": disc}
                 out.append({"name": f"{kw}/{mode}/{tagtype}", "spec": wrap(schemas),
-                            "unions": [{"name": "Uni", "kind": "union", "prop": "kind", "mapping": mapping, "members": members, "base": None}]})
+                            "unions": [{"name": "Uni", "kind": "union", "prop": "kind", "mapping": mapping, "members": members, "base": None, "implicit": mode == "const"}]})
+    # ---- implicit mapping that cannot be synthesised: duplicate const, a member without const
+    for why in ("dup", "noconst"):
+        schemas = {}
+        for c, tag in (("Alpha", "a"), ("Beta", "a" if why == "dup" else "b"), ("Gamma", "g")):
+            f, ty, _ = CHILD_FIELDS[c]
+            tagp = {"type": "string"} if (why == "noconst" and c == "Gamma") else {"const": tag}
+            schemas[c] = {"type": "object", "required": ["kind"], "properties": {"kind": tagp, f: {"type": ty}}}
+        schemas["Uni"] = {"oneOf": [R(c) for c in ("Alpha", "Beta", "Gamma")], "discriminator": {"propertyName": "kind"}}
+        out.append({"name": f"oneOf/const-{why}", "spec": wrap(schemas),
+                    "unions": [{"name": "Uni", "kind": "union", "prop": "kind", "mapping": {}, "members": ["Alpha", "Beta", "Gamma"], "base": None, "implicit": True}]})
     # ---- F: nested unions: a member of the outer union is itself a discriminated union
     schemas = {}
     for c in ("Alpha", "Beta", "Gamma"):
@@ -138,7 +148,7 @@ def parse_model(line):
 def main(tier, seed, replay=None):
     res = Result("C14", tier, seed)
     vlib.build_repo()
-    coq_ok, out = vlib.standard_coq_obligations(res, TARGETS, THEOREMS, expect_closed=5)
+    coq_ok, out = vlib.standard_coq_obligations(res, TARGETS, THEOREMS, expect_closed=6)
     exe = vlib.ocaml_build("c14")
     res.oblige("extracted model (group, base_enum, upgrade, dispatch) builds", exe is not None)
     cfgs = configs()
@@ -159,6 +169,29 @@ def main(tier, seed, replay=None):
         rc, txt = vlib.oas(["generate", "types", "-i", sp, "-o", outp, "-q", "--no-helpers"] + (flags if flags is not None else ["--all-schemas"]), timeout=120)
         return rc, txt[-300:], outp
     results = vlib.pmap(one, range(len(cfgs)))
+    # implicit mappings are synthesised by the MODEL from the const values found in the spec
+    sq, sidx = [], []
+    for i, c in enumerate(cfgs):
+        for u in c["unions"]:
+            if u.get("implicit"):
+                toks = []
+                for mname in u["members"]:
+                    sc = c["spec"]["components"]["schemas"].get(mname)
+                    if sc is None:
+                        toks.append(f"{mname}=?")
+                    else:
+                        cv = (sc.get("properties", {}).get(u["prop"]) or {}).get("const")
+                        toks.append(f"{mname}={cv}" if isinstance(cv, str) else f"{mname}=!")
+                sq.append("synth " + " ".join(toks))
+                sidx.append((c, u))
+    syn_dis = []
+    if exe and sq:
+        for (c, u), r in zip(sidx, vlib.run_driver(exe, sq)):
+            got = {} if r.startswith("NONE") else dict(kv.split("=") for kv in r[2:].split(",") if kv)
+            if u["mapping"] and got != u["mapping"]:
+                syn_dis.append(f"{c['name']}: model synthesises {got}, configuration expects {u['mapping']}")
+            u["mapping"] = got
+    res.oblige(f"model: implicit mappings synthesised from const tags for {len(sq)} unions agree with the configurations", not syn_dis, "; ".join(syn_dis[:2]))
     queries, qmap = [], []
     for i, c in enumerate(cfgs):
         for u in c["unions"]:
@@ -301,7 +334,7 @@ def main(tier, seed, replay=None):
         "coq/Model/Discrim.v: hand model of build_variants_from_mapping / try_upgrade_to_discriminated / the emitted Deserialize match",
         "lib/c14.py read_enum: regex read-back of the emitted enum and its Deserialize impl; serde / serde_json for the payloads"]
     res.assumptions = ["PARTIAL: the theorems cover which variant a tag selects, rejection of unmapped tags and the missing-tag arm; decoding of the variant payload and the tag written on encode are arena observations",
-                       "effective_mapping (synthesis from const) is exercised through the configurations, not modelled"]
+                       "effective_mapping: the synthesis from const values is modelled (synth); the choice between explicit mapping and synthesis is exercised through the configurations"]
     kf = {k["key"]: k["text"] for k in vlib.known_findings("C14")}
     seen_known, real = set(), []
     for (c, dsc, cls) in viol:
